@@ -1087,6 +1087,26 @@ Proof.
   rewrite (cnt_zero_nil (xpend x)); [reflexivity|]. intros j. rewrite m_pend0, J, A. reflexivity.
 Qed.
 
+(* ---- the statements of props/Properties_C07.v that combine several of the lemmas above -------------------- *)
+Lemma program_order s t : Inv s ->
+  map snd (filter (fun j => Nat.eqb (fst j) t) (pushed s)) = seq 0 (nseq_of s t) /\
+  StronglySorted lt (map snd (filter (fun j => Nat.eqb (fst j) t) (called s))).
+Proof. intros I. split; [apply per_submitter_push_order; exact I|apply per_submitter_order; exact I]. Qed.
+
+Lemma none_lost_idle s : Inv s -> quiescent s = true ->
+  Permutation (pushed s) (called s ++ dropped s) /\ NoDup (called s ++ dropped s) /\ jobs s = Idle.
+Proof.
+  intros I Q. destruct (none_lost s I Q) as [P N]. destruct (quiescent_idle s I Q) as [J _]. auto.
+Qed.
+
+Lemma drop_only_if_refused s : Inv s -> refused s = 0 ->
+  dropped s = [] /\ (quiescent s = true -> called s = pushed s).
+Proof.
+  intros I R. split.
+  - exact (proj1 (dropped_only_if_refused s I R)).
+  - intros Q. exact (proj1 (all_called_in_order_if_never_refused s I Q R)).
+Qed.
+
 (* ---- bounded work ------------------------------------------------------------------------------------- *)
 Ltac pot := unfold potential, must in *; simpl in *;
   repeat rewrite ?sumf_app, ?sumf_cons, ?sumf_nil, ?app_length, ?rev_length in *; simpl in *;
